@@ -430,3 +430,68 @@ Proof.
   cbn [fst snd] in *. subst e. destruct (block_go_closed _ _ _ _ E) as [l' ->].
   now apply (H l').
 Qed.
+
+(** ** Token types: the lexer functions never make an EOF token (only
+    [Lexer.Token] does, at the end of the input). *)
+
+Definition not_eof_res (r : lexres) : Prop :=
+  match r with LTok t _ _ => tty t <> TEOF | LPanic _ => True end.
+
+Lemma lex_number_not_eof s : not_eof_res (lex_number s).
+Proof.
+  unfold lex_number. destruct s as [|c r]; [exact I|].
+  destruct (negb (is_digit c)); [exact I|].
+  destruct (match r with 120 :: r2 => if c =? 48 then Some r2 else None | _ => None end).
+  - destruct (span is_hex_digit l). cbn. discriminate.
+  - destruct (span is_digit r) as [d1 r1].
+    destruct (match r1 with
+              | 46 :: r1' => let '(d2, r2) := span is_digit r1' in (true, 46 :: d2, r2)
+              | _ => (false, [], r1) end) as [[fl1 frac] r2].
+    repeat match goal with |- not_eof_res (match ?X with _ => _ end) => destruct X end.
+    cbn. destruct (fl1 || _); discriminate.
+Qed.
+
+Lemma lex_string_not_eof q s : not_eof_res (lex_string q s).
+Proof.
+  destruct s as [|c r]; [exact I|]. cbn [lex_string]. destruct (c =? q); [|exact I].
+  destruct (str_go q SNormal r) as [[l rest] e]. cbn. discriminate.
+Qed.
+
+Lemma lex_jsonx_not_eof s : not_eof_res (lex_jsonx s).
+Proof.
+  destruct s as [|c r]; [exact I|]. cbn [lex_jsonx].
+  destruct (is_white c); [exact I|].
+  destruct (c =? 10); [cbn; discriminate|].
+  destruct (c =? 34); [apply lex_string_not_eof|].
+  destruct (c =? 96).
+  { unfold lex_raw_string. destruct c as [|p]; [exact I|].
+    repeat (destruct p as [p|p|]; try exact I).
+    destruct (raw_go r) as [[l rest] e]. cbn. discriminate. }
+  destruct (is_digit c); [apply lex_number_not_eof|].
+  destruct (is_ident_letter c) eqn:Ei.
+  { cbn [lex_ident]. rewrite Ei. destruct (span is_ident_char r). cbn. discriminate. }
+  destruct (is_op_rune c); [cbn; discriminate|].
+  destruct (c =? 47).
+  { destruct r as [|x r']; [cbn; discriminate|].
+    destruct (N.eqb_spec x 47) as [->|H47].
+    - cbn [lex_line_comment]. destruct (span (fun x => negb (x =? 10)) r'). cbn. discriminate.
+    - destruct (N.eqb_spec x 42) as [->|H42].
+      + cbn [lex_block_comment]. destruct (block_go false r') as [[l rest] e]. cbn. discriminate.
+      + destruct x as [|p]; [cbn; discriminate|].
+        repeat (destruct p as [p|p|]; try (cbn; discriminate)); contradiction. }
+  destruct (c =? 59); cbn; discriminate.
+Qed.
+
+Lemma lex_all_not_eof lexf white :
+  (forall s, not_eof_res (lexf s)) ->
+  forall fuel s l, lex_all lexf white fuel s = Ok l ->
+  Forall (fun te => tty (fst te) <> TEOF) l.
+Proof.
+  intros Hl fuel. induction fuel as [|f IH]; intros s l H; [discriminate|].
+  cbn [lex_all] in H. destruct (drop_while white s) as [|c r].
+  { injection H as <-. constructor. }
+  pose proof (Hl (c :: r)) as Hc.
+  destruct (lexf (c :: r)) as [t e rest|w]; [|discriminate].
+  destruct (lex_all lexf white f rest) as [l'| |] eqn:El; try discriminate.
+  injection H as <-. constructor; [exact Hc|]. eapply IH; eauto.
+Qed.
